@@ -668,6 +668,10 @@ class ExprMixin:
             return a.t == b.t
         if isinstance(a, SBool) and isinstance(b, SBool):
             return a.t == b.t
+        if isinstance(a, (SInt, SReal)) and isinstance(b, (SInt, SReal)):
+            kind, at, bt = self.num_pair(a, b)
+            if kind:
+                return at == bt
         if isinstance(a, SStr) and isinstance(b, (SInt, SReal)) or isinstance(b, SStr) and isinstance(a, (SInt, SReal)):
             return z3.BoolVal(False)
         if identity:
